@@ -90,6 +90,16 @@ func VPH_C12_rules_failclosed() {
 	if vp.Param("ITEMS") == 1 {
 		vp.Assume(!strings.Contains(allow, ",") && !strings.Contains(deny, ","))
 	}
+	if n := vp.Param("NSHARDS"); n > 1 {
+		k := 0
+		if allow != "" {
+			k++
+		}
+		if strings.Contains(allow, ",") || strings.Contains(deny, ",") {
+			k += 2
+		}
+		vp.Assume(k%n == vp.Param("SHARD"))
+	}
 	r := &Route{Host: "h", Path: "/"}
 	vpAddTargetOpts(r, opts)
 	vp.Assert(len(r.Targets) == 1, "target-added")
